@@ -14,7 +14,13 @@ From SPV Require Export Base.Str Model.OptStr.
 (* ---------- what a parser is defined by ---------- *)
 Record alt := mkalt { a_key : string; a_cls : string; a_fname : string; a_fdefault : string }.
 (* int / str / Tuple[int,str] / subgroups({key: class-with-one-int-field}, default=dkey) *)
-Inductive fkind := FInt | FStr | FTup | FSub (alts : list alt) (dkey : string).
+(* an Enum class: e_id stands for the identity of the class object, e_qual for "<module>.<qualname>" *)
+Record enumdef := mkenum { e_id : nat; e_qual : string; e_members : list (string * string) }.
+Inductive eshape := EList | EOpt | EPair.                      (* List[E] / Optional[E] / Tuple[E, E] *)
+(* FEnum sh e foreign: a container-of-Enum field; `foreign` = the parsing function in use belongs to ANOTHER class
+   than the one the dataclass declares (always false in a definition) *)
+Inductive fkind := FInt | FStr | FTup | FSub (alts : list alt) (dkey : string)
+                 | FEnum (sh : eshape) (e : enumdef) (foreign : bool).
 (* f_default is the rendered value ("int:1", "str:d", "tuple(int:0,str:z)"); unused for FSub *)
 Record fdecl := mkf { f_name : string; f_kind : fkind; f_default : string }.
 Record dcls := mkdc { d_cls : string; d_fields : list fdecl }.
@@ -28,8 +34,10 @@ Record facts := mkfacts {
   setup_cached : bool;            (* set-up runs once (guarded by _preprocessing_done) *)
   tuple_counter_persists : bool;  (* the tuple converter's call counter lives as long as the set-up *)
   defaults_persist : bool;        (* set_defaults(config file) writes onto the wrappers / constructor_arguments for good *)
-  done_after_work : bool          (* `_preprocessing_done = True` is the LAST statement of _preprocessing: a set-up that raises
+  done_after_work : bool;         (* `_preprocessing_done = True` is the LAST statement of _preprocessing: a set-up that raises
                                      half-way is redone by the next call (false: the flag is set first and the parser stays half-built) *)
+  reg_by_class : bool             (* parse_enum keys the module-level registry `_parsing_fns` by the Enum CLASS OBJECT
+                                     (false: by its "<module>.<qualname>" string, shared by distinct same-named classes) *)
 }.
 
 (* ---------- small association lists ---------- *)
@@ -61,7 +69,8 @@ Definition cfg_eqb (a b : cfg) : bool :=
   dashv_eqb (dv a) (dv b) && genmode_eqb (gm a) (gm b) && nestmode_eqb (nm a) (nm b).
 
 (* ---------- the slice of argparse that the histories exercise ---------- *)
-Inductive akind := KInt | KStr | KTup | KChoice (keys : list string) | KHelp | KCfg.
+Inductive akind := KInt | KStr | KTup | KChoice (keys : list string) | KHelp | KCfg
+                 | KEnum (sh : eshape) (e : enumdef) (foreign : bool).
 Record action := mkact { ac_opts : list string; ac_dest : string; ac_kind : akind; ac_default : string }.
 Inductive tcls := TA | TO (i : nat) | TUnknown | TAmbig.
 
@@ -128,7 +137,35 @@ Fixpoint conv_tuple (n : nat) (ts : list string) : res (list string) * nat :=
   end.
 Definition render_tuple (vs : list string) : string := "tuple(" ++ String.concat "," vs ++ ")".
 
-Definition nargs_of (k : akind) : nat := match k with KTup => 2 | KHelp => 0 | _ => 1 end.
+Definition nargs_of (k : akind) : nat := match k with KTup | KEnum EPair _ _ => 2 | KHelp => 0 | _ => 1 end.
+(* the argument strings an option takes from the run of argument tokens that follows it (None = usage error):
+   List[E] has nargs="*", Optional[E] nargs="?", everything else a fixed number *)
+Definition take_vals (k : akind) (avail : list string) : option (list string) :=
+  match k with
+  | KEnum EList _ _ => Some avail
+  | KEnum EOpt _ _ => Some (firstn 1 avail)
+  | _ => let n := nargs_of k in if Nat.ltb (List.length avail) n then None else Some (firstn n avail)
+  end.
+(* the registered parsing function of an Enum: member lookup by name, in the class the function was made for *)
+Definition conv_enum (e : enumdef) (foreign : bool) (t : string) : option string :=
+  match find (fun m => String.eqb (fst m) t) (e_members e) with
+  | Some (n, v) => Some ("enum:" ++ e_qual e ++ "." ++ n ++ "=" ++ v ++ (if foreign then "!foreign" else ""))
+  | None => None
+  end.
+Fixpoint conv_enums (e : enumdef) (foreign : bool) (ts : list string) : option (list string) :=
+  match ts with
+  | [] => Some []
+  | t :: r => match conv_enum e foreign t, conv_enums e foreign r with
+              | Some v, Some vs => Some (v :: vs)
+              | _, _ => None
+              end
+  end.
+Definition render_enum (sh : eshape) (vs : list string) : string :=
+  match sh with
+  | EList => "list(" ++ String.concat "," vs ++ ")"
+  | EOpt => match vs with [] => "none" | v :: _ => v end
+  | EPair => render_tuple vs
+  end.
 
 (* left-to-right consumption; `skip` = tokens already eaten as arguments of the previous option *)
 Fixpoint run (acts : list action) (ns : kv) (cnt : counters) (extras : list string) (skip : nat)
@@ -146,10 +183,15 @@ Fixpoint run (acts : list action) (ns : kv) (cnt : counters) (extras : list stri
               match nth_error acts i with
               | None => (Err OutOfFuel, cnt)
               | Some a =>
-                  let n := nargs_of (ac_kind a) in
-                  let vals := firstn n (take_A r) in
-                  if Nat.ltb (List.length vals) n then (Err (Exit 2), cnt) else
+                  match take_vals (ac_kind a) (take_A r) with
+                  | None => (Err (Exit 2), cnt)
+                  | Some vals =>
+                  let n := List.length vals in
                   match ac_kind a with
+                  | KEnum sh e fo => match conv_enums e fo vals with
+                                     | Some vs => run acts (kv_set ns (ac_dest a) (render_enum sh vs)) cnt extras n r
+                                     | None => (Err (Exit 2), cnt)
+                                     end
                   | KHelp => (Err (Exit 0), cnt)
                   | KInt => let v := hd "" vals in
                             if is_nat_tok v then run acts (kv_set ns (ac_dest a) ("int:" ++ v)) cnt extras n r
@@ -165,6 +207,7 @@ Fixpoint run (acts : list action) (ns : kv) (cnt : counters) (extras : list stri
                                            (cnt_set cnt (ac_dest a) n') extras n r
                       | (Err e, n') => (Err e, if Nat.eqb n' 0 then cnt else cnt_set cnt (ac_dest a) n')
                       end
+                  end
                   end
               end
           end
@@ -233,6 +276,7 @@ Definition field_acts (g : cfg) (chosen live : kv) (dest : string) (fd : fdecl) 
   | FInt => [mkact opts d KInt (kv_default live d (f_default fd))]
   | FStr => [mkact opts d KStr (kv_default live d (f_default fd))]
   | FTup => [mkact opts d KTup (kv_default live d (f_default fd))]
+  | FEnum sh e fo => [mkact opts d (KEnum sh e fo) (kv_default live d (f_default fd))]
   | FSub alts dkey =>
       mkact opts d (KChoice (map a_key alts)) dkey ::
       match find (fun a => String.eqb (a_key a) (kv_default chosen d dkey)) alts with
@@ -266,6 +310,42 @@ Definition do_setup (g : cfg) (cr : crmode) (adds : list add) (live : kv) (args 
   end.
 (* what a set-up that raised leaves behind when the done-flag was set first: marked done, nothing registered *)
 Definition stuck_setup (live : kv) : setup := mksu [] [] live 0.
+
+(* ---------- the module-level registry of Enum parsing functions (field_parsing._parsing_fns) ---------- *)
+Definition enum_eqb (a b : enumdef) : bool :=
+  Nat.eqb (e_id a) (e_id b) && String.eqb (e_qual a) (e_qual b) && kv_eqb (e_members a) (e_members b).
+(* process-global settings + registry: everything a set-up reads that is not the parser's own *)
+Record glob := mkglob { gl_cfg : cfg; gl_reg : list enumdef }.
+(* by_class: the entry of class e is e's own function.  Otherwise the key is the qualified name and the first
+   class registered under it serves every later class of that name. *)
+Definition resolve (by_class : bool) (reg : list enumdef) (e : enumdef) : enumdef :=
+  if by_class then e
+  else match find (fun r => String.eqb (e_qual r) (e_qual e)) reg with Some r => r | None => e end.
+Definition resolve_kind (by_class : bool) (reg : list enumdef) (k : fkind) : fkind :=
+  match k with
+  | FEnum sh e fo => let r := resolve by_class reg e in FEnum sh r (fo || negb (enum_eqb r e))
+  | _ => k
+  end.
+Definition resolve_fd by_class reg (fd : fdecl) : fdecl := mkf (f_name fd) (resolve_kind by_class reg (f_kind fd)) (f_default fd).
+Definition resolve_add by_class reg (ad : add) : add :=
+  (mkdc (d_cls (fst ad)) (map (resolve_fd by_class reg) (d_fields (fst ad))), snd ad).
+(* the dataclasses as set-up sees them: every container-of-Enum field with the parsing function the registry hands out *)
+Definition resolve_adds by_class reg (adds : list add) : list add := map (resolve_add by_class reg) adds.
+Definition kind_fixed by_class reg (k : fkind) : bool :=
+  match k with FEnum _ e _ => enum_eqb (resolve by_class reg e) e | _ => true end.
+Definition adds_fixed by_class reg (adds : list add) : bool :=
+  forallb (fun ad : add => forallb (fun fd => kind_fixed by_class reg (f_kind fd)) (d_fields (fst ad))) adds.
+Definition enums_of (adds : list add) : list enumdef :=
+  flat_map (fun ad : add => flat_map (fun fd => match f_kind fd with FEnum _ e _ => [e] | _ => [] end) (d_fields (fst ad))) adds.
+(* parse_enum on each Enum in turn: an existing entry (same key) is reused, otherwise the class gets its entry *)
+Fixpoint register (by_class : bool) (reg : list enumdef) (es : list enumdef) : list enumdef :=
+  match es with
+  | [] => reg
+  | e :: r =>
+      let known := if by_class then existsb (enum_eqb e) reg
+                   else existsb (fun x => String.eqb (e_qual x) (e_qual e)) reg in
+      register by_class (if known then reg else (reg ++ [e])%list) r
+  end.
 
 (* ---------- after argparse: _postprocessing ---------- *)
 Definition HELP_ACT : action := mkact ["-h"; "--help"] "help" KHelp "".
@@ -314,7 +394,7 @@ Record pstate := mkp {
 Definition new_p (d : pdef) : pstate := mkp (df_cfg d) (df_cr d) (df_cfgarg d) (df_adds d) None [] false [].
 Definition def_of (p : pstate) : pdef := mkdef (p_cfg p) (p_cr p) (p_cfgarg p) (p_adds p).
 
-Record state := mkst { st_g : cfg; st_slots : list (nat * pstate) }.
+Record state := mkst { st_g : glob; st_slots : list (nat * pstate) }.
 Fixpoint slot_get (l : list (nat * pstate)) (i : nat) : option pstate :=
   match l with [] => None | (j, p) :: r => if Nat.eqb j i then Some p else slot_get r i end.
 Fixpoint slot_set (l : list (nat * pstate)) (i : nat) (p : pstate) : list (nat * pstate) :=
@@ -335,7 +415,7 @@ Definition vals := res kv.
 Inductive obs := ONoParser | ONone | ODone | OParse (r : vals) | OFail (e : err).
 
 Definition init_cfg : cfg := mkcfg DUnderscore GFlat NDefault.      (* the class attributes' initial values *)
-Definition init : state := mkst init_cfg [].
+Definition init : state := mkst (mkglob init_cfg []) [].
 
 Section Machine.
   Variable f : facts.
@@ -346,8 +426,14 @@ Section Machine.
   (* a set-up that raised: the parser is as it was, unless the done-flag had been set before the work *)
   Definition after_failure (p : pstate) (live : kv) : option setup :=
     if done_after_work f then p_setup p else Some (stuck_setup live).
-  Definition setup_g (g : cfg) (p : pstate) : cfg :=
-    match cached p with Some _ => g | None => if reasserts f then p_cfg p else g end.
+  Definition setup_g (g : glob) (p : pstate) : glob :=
+    match cached p with Some _ => g | None => if reasserts f then mkglob (p_cfg p) (gl_reg g) else g end.
+  (* set-up proper, as it runs inside _preprocessing: the dataclasses with the Enum parsing functions the registry
+     hands out, the option strings from the class-level settings *)
+  Definition setup_in (g : glob) (p : pstate) (live : kv) (args : list string) : res setup :=
+    do_setup (gl_cfg g) (p_cr p) (resolve_adds (reg_by_class f) (gl_reg g) (p_adds p)) live args.
+  Definition registered (g : glob) (p : pstate) : glob :=
+    mkglob (gl_cfg g) (register (reg_by_class f) (gl_reg g) (enums_of (p_adds p))).
 
   (* what parse_known_args does before _preprocessing: split off --config_path, read the files *)
   Definition prep (p : pstate) (argv : list string) : list string * (res unit * kv) :=
@@ -355,7 +441,7 @@ Section Machine.
     let (files, args) := if p_cfgarg p then split_cfg argv else ([], argv) in
     (args, apply_files ftbl live0 files).
 
-  Definition parse_step (g : cfg) (p : pstate) (argv : list string) : cfg * pstate * vals :=
+  Definition parse_step (g : glob) (p : pstate) (argv : list string) : glob * pstate * vals :=
     let cnt0 := if tuple_counter_persists f then p_cnt p else [] in
     let '(args, (rl, live1)) := prep p argv in
     let p1 := mkp (p_cfg p) (p_cr p) (p_cfgarg p) (p_adds p) (p_setup p) cnt0 (p_added p) live1 in
@@ -365,11 +451,12 @@ Section Machine.
         if p_cfgarg p && p_added p && cfgarg_every_parse f then (g, p1, Err (Raise "ArgumentError")) else
         let added := p_added p || p_cfgarg p in
         let g' := setup_g g p in
-        match (match cached p with Some su => Ok su | None => do_setup g' (p_cr p) (p_adds p) live1 args end) with
+        match (match cached p with Some su => Ok su | None => setup_in g' p live1 args end) with
         | Err e => (g', mkp (p_cfg p) (p_cr p) (p_cfgarg p) (p_adds p) (after_failure p live1) cnt0 added live1, Err e)
         | Ok su =>
             let (r, cnt1) := parse_acts true (main_acts added su) cnt0 args in
-            (g', mkp (p_cfg p) (p_cr p) (p_cfgarg p) (p_adds p) (Some su) cnt1 added live1,
+            ((match cached p with Some _ => g' | None => registered g' p end),
+             mkp (p_cfg p) (p_cr p) (p_cfgarg p) (p_adds p) (Some su) cnt1 added live1,
              match r with
              | Err e => Err e
              | Ok (ns, extras) => postprocess su (p_adds p) live1 ns extras
@@ -378,17 +465,18 @@ Section Machine.
     end.
 
   (* print_help(): _preprocessing(args=[]) then argparse's print_help *)
-  Definition help_step (g : cfg) (p : pstate) : cfg * pstate * obs :=
+  Definition help_step (g : glob) (p : pstate) : glob * pstate * obs :=
     let g' := setup_g g p in
-    match (match cached p with Some su => Ok su | None => do_setup g' (p_cr p) (p_adds p) (p_live p) [] end) with
+    match (match cached p with Some su => Ok su | None => setup_in g' p (p_live p) [] end) with
     | Err e => (g', mkp (p_cfg p) (p_cr p) (p_cfgarg p) (p_adds p) (after_failure p (p_live p)) (p_cnt p) (p_added p) (p_live p),
                 OFail e)
-    | Ok su => (g', mkp (p_cfg p) (p_cr p) (p_cfgarg p) (p_adds p) (Some su) (p_cnt p) (p_added p) (p_live p), ODone)
+    | Ok su => ((match cached p with Some _ => g' | None => registered g' p end),
+                mkp (p_cfg p) (p_cr p) (p_cfgarg p) (p_adds p) (Some su) (p_cnt p) (p_added p) (p_live p), ODone)
     end.
 
   Definition step (s : state) (o : op) : state * obs :=
     match o with
-    | Construct i c cr cfgarg => (mkst c (slot_set (st_slots s) i (new_p (mkdef c cr cfgarg []))), ONone)
+    | Construct i c cr cfgarg => (mkst (mkglob c (gl_reg (st_g s))) (slot_set (st_slots s) i (new_p (mkdef c cr cfgarg []))), ONone)
     | AddArgs i d dest =>
         match slot_get (st_slots s) i with
         | None => (s, ONoParser)
@@ -419,7 +507,7 @@ Section Machine.
     match ops with [] => [] | o :: r => snd (step s o) :: obs_from (fst (step s o)) r end.
 
   (* what a fresh interpreter answers: construct the parser as defined, parse once *)
-  Definition fresh (d : pdef) (argv : list string) : vals := snd (parse_step (df_cfg d) (new_p d) argv).
+  Definition fresh (d : pdef) (argv : list string) : vals := snd (parse_step (mkglob (df_cfg d) []) (new_p d) argv).
 
   (* the definition parser i has just before the k-th operation *)
   Definition def_at (ops : list op) (k i : nat) : option pdef :=
@@ -428,7 +516,11 @@ Section Machine.
   (* ---------- the situations in which history shows ---------- *)
   Definition is_cached (p : pstate) : bool := match cached p with Some _ => true | None => false end.
   (* (#10) set-up is about to run while FieldWrapper carries another parser's settings *)
-  Definition b_spelling (g : cfg) (p : pstate) : bool := reasserts f || is_cached p || cfg_eqb g (p_cfg p).
+  Definition b_spelling (g : glob) (p : pstate) : bool := reasserts f || is_cached p || cfg_eqb (gl_cfg g) (p_cfg p).
+  (* (seeded C08-04) set-up is about to run while the registry holds, under the key of one of this parser's Enum
+     classes, the parsing function of ANOTHER class *)
+  Definition b_registry (g : glob) (p : pstate) : bool :=
+    reg_by_class f || is_cached p || adds_fixed false (gl_reg g) (p_adds p).
   (* (#11) the help-only --config_path argument is about to be added a second time *)
   Definition b_cfgarg (p : pstate) : bool := negb (p_cfgarg p && p_added p && cfgarg_every_parse f).
   (* (#12) a tuple converter of this parser has been called before *)
@@ -454,12 +546,12 @@ Section Machine.
     | Parse i argv =>
         match slot_get (st_slots s) i with
         | None => true
-        | Some p => b_spelling (st_g s) p && b_cfgarg p && b_tuple p && b_frozen p argv && b_defaults p
+        | Some p => b_spelling (st_g s) p && b_registry (st_g s) p && b_cfgarg p && b_tuple p && b_frozen p argv && b_defaults p
         end
     | PrintHelp i =>
         match slot_get (st_slots s) i with
         | None => true
-        | Some p => b_spelling (st_g s) p
+        | Some p => b_spelling (st_g s) p && b_registry (st_g s) p
         end
     | _ => true
     end.
@@ -470,4 +562,4 @@ End Machine.
 
 Definition all_repaired (f : facts) : bool :=
   reasserts f && negb (cfgarg_every_parse f) && negb (setup_cached f) && negb (tuple_counter_persists f)
-  && negb (defaults_persist f).
+  && negb (defaults_persist f) && reg_by_class f.
